@@ -34,6 +34,12 @@ class Unsupported(Exception):
 def find_item(src, kind, name):
     """span (start_of_first_attr_line, end) of `enum|struct|trait NAME {...}` / `const NAME ...;`"""
     m = rustlex.mask(src)
+    if kind == 'consts':
+        # every top-level `const NAME: T = ..;` of the file (so that a newly introduced constant does not break extraction)
+        spans = [(mm.start(), mm.end()) for mm in re.finditer(r'^(pub(\([^)]*\))?\s+)?const\s+\w+\s*:[^;]*;', m, re.M)]
+        if not spans:
+            raise AnchorLost('no top-level consts found')
+        return spans[0][0], spans[-1][1], [], spans
     if kind == 'const':
         mm = re.search(r'^[ \t]*(pub(\([^)]*\))?\s+)?const\s+' + re.escape(name) + r'\b[^;]*;', m, re.M)
         if not mm:
@@ -308,8 +314,9 @@ def build_unit(unit_path, out_path):
     parts.append(prelude)
     for it in u.get('item', []):
         src = rd(os.path.join(REPO, it['file'])).replace('\r\n', '\n')
-        s, e, attrs = find_item(src, it['kind'], it['name'])
-        text = strip_docs(src[s:e])
+        found = find_item(src, it['kind'], it.get('name', ''))
+        s, e, attrs = found[0], found[1], found[2]
+        text = strip_docs(src[s:e]) if it['kind'] != 'consts' else '\n'.join(src[a:b] for a, b in found[3])
         if R1_BOUND.search(text):
             info['rewrites'].append({'fn': it['name'], 'op': 'replace', 'why': 'R1 trait-parameter collapse', 'before': R1_BOUND.search(text).group(0), 'after': 'EbmlSpecification'})
             text = R1_BOUND.sub('EbmlSpecification', text)
@@ -318,10 +325,10 @@ def build_unit(unit_path, out_path):
             text, dropped = project_struct(text, it)
             info['rewrites'].append({'fn': it['name'], 'op': 'R5 struct projection', 'why': 'fields not touched by any function of the unit are dropped (checked mechanically below); generic parameters of dropped fields removed', 'dropped_fields': dropped, 'after': text})
             info.setdefault('dropped_fields', []).extend(dropped)
-        parts.append(f'// ---- verbatim: {it["kind"]} {it["name"]} from {it["file"]} ----')
+        parts.append(f'// ---- verbatim: {it["kind"]} {it.get("name", "(all)")} from {it["file"]} ----')
         parts.extend(keep_attrs)
         parts.append(text)
-        info['items'].append({'file': it['file'], 'kind': it['kind'], 'name': it['name'], 'sha256': hashlib.sha256(src[s:e].encode()).hexdigest(), 'dropped': 'doc comments'})
+        info['items'].append({'file': it['file'], 'kind': it['kind'], 'name': it.get('name', '(all top-level consts)'), 'sha256': hashlib.sha256(src[s:e].encode()).hexdigest(), 'dropped': 'doc comments'})
     for group in u.get('impl', []):
         parts.append(group['header'] + ' {')
         if group.get('prelude'):
